@@ -38,6 +38,8 @@ import (
 	"os"
 	"strconv"
 	"strings"
+	"sync"
+	"sync/atomic"
 	"testing"
 	"time"
 
@@ -210,6 +212,7 @@ func vfLIndexOf(ends []int64, off int64) int {
 func vfC14Loop(t *testing.T, s *vfutil.Session, c *vfLCase, src string) {
 	wire, ends, ks := c.wire()
 	var samples [][3]int64
+	var samplesMu sync.Mutex
 	inner := strings.HasPrefix(c.fault, "inner:")
 	run := func(failAt map[int]string) (*vfdoubles.Target, int, error, *RedisOutput, vfLPoint) {
 		tg := vfdoubles.NewTarget()
@@ -226,15 +229,17 @@ func vfC14Loop(t *testing.T, s *vfutil.Session, c *vfLCase, src string) {
 			for _, u := range c.slow {
 				slowKey[ks[u]] = true
 			}
-			stalled := false
+			var stalled atomic.Bool
 			tg.Hook = func(idx int, e vfdoubles.LogEntry) {
-				if stalled {
+				if stalled.Load() {
 					return
 				}
 				// the lane that carries a slow unit stalls inside that unit's MULTI (a queued
 				// command has no effect before EXEC, so log order stays execution order)
 				if e.Cmd() == "set" && e.Queued && len(e.Args) > 1 && slowKey[string(e.Args[1])] {
-					stalled = true
+					if stalled.Swap(true) {
+						return
+					}
 					time.Sleep(60 * time.Millisecond) // once, shorter than the settle time of these cases
 				}
 			}
@@ -265,7 +270,10 @@ func vfC14Loop(t *testing.T, s *vfutil.Session, c *vfLCase, src string) {
 		stall := tg.Hook
 		samples = samples[:0]
 		tg.Hook = func(idx int, e vfdoubles.LogEntry) {
+			// (the hook runs on the connection goroutines, two with two lanes, outside the double's lock)
+			samplesMu.Lock()
 			samples = append(samples, [3]int64{int64(idx), ro.bisyncSeq.Load(), ro.bisyncOffset.Load()})
+			samplesMu.Unlock()
 			if stall != nil {
 				stall(idx, e)
 			}
@@ -373,7 +381,14 @@ func vfC14Loop(t *testing.T, s *vfutil.Session, c *vfLCase, src string) {
 		}
 	}
 	// the in-memory frontier at every request of the run names a committed prefix of what the
-	// target had applied by then
+	// target had applied by then. The sample is taken on the target's connection goroutine while the
+	// send loop runs: it stores bisyncSeq and bisyncOffset one after the other, so a sample may pair
+	// the sequence of one store with the offset of the one before (or after). That is an artefact of
+	// sampling from outside: in the code the only readers (StartPoint's fast path, the start of the
+	// next loop) run on the goroutine that ran the send loop, after it returned. So each value is
+	// judged on its own - the unit it names and every unit before it are committed - and that the two
+	// name the SAME unit is checked where the code reads them: after the loop ended and at the second /
+	// third StartPoint of the same process.
 	if c.fault == "" || inner {
 		step := 1
 		if len(samples) > 60 {
@@ -381,18 +396,34 @@ func vfC14Loop(t *testing.T, s *vfutil.Session, c *vfLCase, src string) {
 		}
 		for i := 0; i < len(samples); i += step {
 			sm := samples[i]
-			if sm[1] <= first.seq {
+			mOff := vfLIndexOf(ends, sm[2])
+			mSeq := int(sm[1]-first.seq) + startIdx
+			if sm[1] <= first.seq && (mOff >= 0 && mOff <= startIdx) {
 				continue
 			}
-			m := vfLIndexOf(ends, sm[2])
 			com := vfLCommitted(replay(log[:sm[0]]), ks)
-			bad := m < 0 || sm[1] != int64(m-startIdx)+first.seq
-			for u := startIdx + 1; u <= m && !bad; u++ {
-				bad = !com[u]
+			bad := ""
+			switch {
+			case sm[2] != first.off && mOff < 0:
+				bad = fmt.Sprintf("bisyncOffset %d is not a unit boundary", sm[2])
+			case mSeq < startIdx || mSeq >= len(ends):
+				bad = fmt.Sprintf("bisyncSeq %d names no unit of this run (started at seq %d)", sm[1], first.seq)
 			}
-			if bad {
-				s.Violate("loop-memory-frontier", fmt.Sprintf("at request #%d bisyncSeq/bisyncOffset = %d/%d (unit %d) but the target had committed %v", sm[0]-int64(nSeed), sm[1], sm[2], m, com[1:]), rep(nil))
+			top := mSeq
+			if mOff > top {
+				top = mOff
+			}
+			for u := startIdx + 1; u <= top && bad == ""; u++ {
+				if !com[u] {
+					bad = fmt.Sprintf("unit %d is not committed", u)
+				}
+			}
+			if bad != "" {
+				s.Violate("loop-memory-frontier", fmt.Sprintf("at request #%d bisyncSeq = %d (unit %d), bisyncOffset = %d (unit %d): %s; the target had committed %v", sm[0]-int64(nSeed), sm[1], mSeq, sm[2], mOff, bad, com[1:]), rep(nil))
 				break
+			}
+			if mSeq != mOff {
+				s.Count("loop_memory_samples_between_the_two_stores")
 			}
 			s.Count("loop_memory_samples")
 		}
